@@ -515,7 +515,9 @@ def count_clauses(rep, fn, fam, res):
             if clause == "fric_convex":
                 n = n_all * res.get("ncv", 1)
             rep.count_clause(clause, n)
-            rep.count_clause(clause + "@" + fn + ("/off" if fam == "off" else ""), n)
+            d = rep.coverage.setdefault("clauses_evaluated_by_function", {})
+            k = clause + "@" + fn + ("/off" if fam == "off" else "")
+            d[k] = d.get(k, 0) + n
 
 
 def regime(fam, q):
